@@ -457,6 +457,10 @@ class Packet(object):
     # packets larger than this value must be fragmented
     MAX_PAYLOAD_SIZE = MAX_SIZE - PacketHeader.SIZE - PacketHeader.TAG_SIZE - MESSAGE_OVERHEAD_1
 
+    # the maximum number of bytes available in a datagram for messages
+    # including the per message overhead
+    MAX_CONTENT_SIZE = MAX_PAYLOAD_SIZE + MESSAGE_OVERHEAD_1
+
     # allow room for other messages
     MAX_FRAGMENT_SIZE = 1024
 
@@ -517,6 +521,7 @@ class Packet(object):
         Packet.MTU = mtu
         Packet.MAX_SIZE = Packet.MTU - Packet.UDP_HEADER_SIZE
         Packet.MAX_PAYLOAD_SIZE = Packet.MAX_SIZE - PacketHeader.SIZE - PacketHeader.TAG_SIZE - Packet.MESSAGE_OVERHEAD_1
+        Packet.MAX_CONTENT_SIZE = Packet.MAX_PAYLOAD_SIZE + Packet.MESSAGE_OVERHEAD_1
 
         Packet.MAX_SIZE_CRC = Packet.MAX_SIZE - PacketHeader.TAG_SIZE + PacketHeader.CRC_SIZE
 
@@ -1173,7 +1178,7 @@ class ConnectionBase(object):
                 # calculate the size of the packet so far + this message
                 size = len(msg.payload) + Packet.overhead(1+len(msgs)) + current_msg_length
                 # if the message fits add it to the packet
-                if size <= Packet.MAX_PAYLOAD_SIZE:
+                if size <= Packet.MAX_CONTENT_SIZE:
                     del self.pending_retry_msg[msgseq]
                     msgs.append(msg)
                     current_msg_length += len(msg.payload)
@@ -1190,7 +1195,7 @@ class ConnectionBase(object):
             # calculate the size of the packet so far + this message
             size = len(pending.payload) + Packet.overhead(1+len(msgs)) + current_msg_length
             # if the message fits add it to the packet
-            if size <= Packet.MAX_PAYLOAD_SIZE:
+            if size <= Packet.MAX_CONTENT_SIZE:
                 self.outgoing_messages.pop(idx)
                 msgs.append(pending)
                 current_msg_length += len(pending.payload)
